@@ -817,3 +817,124 @@ pub fn check_c09(case: &PipeCase, out: &WriteOutcome) -> Verdict {
     }
     Verdict::Pass
 }
+
+/// C09, second decoder: the Python decoder (tools/pydecode.py: struct + zlib only) judges the same image.
+/// A disagreement between the two decoders is a harness error, not a violation.
+pub fn check_c09_python(case: &PipeCase, image: &[u8]) -> Verdict {
+    use std::io::Write;
+    let script = crate::driver::root().join("tools/pydecode.py");
+    let mut tmp = match tempfile::NamedTempFile::new() {
+        Ok(t) => t,
+        Err(e) => return Verdict::Skip(format!("HARNESS: scratch file: {}", e)),
+    };
+    if tmp.write_all(image).and_then(|_| tmp.flush()).is_err() {
+        return Verdict::Skip("HARNESS: scratch write".into());
+    }
+    let out = match std::process::Command::new("python3").arg(&script).arg(tmp.path()).output() {
+        Ok(o) => o,
+        Err(e) => return Verdict::Skip(format!("HARNESS: cannot run python3: {}", e)),
+    };
+    let line = String::from_utf8_lossy(&out.stdout);
+    let v: serde_json::Value = match serde_json::from_str(line.lines().next().unwrap_or("")) {
+        Ok(v) => v,
+        Err(e) => {
+            return Verdict::Skip(format!(
+                "HARNESS: python decoder output unparsable: {} / {}",
+                e,
+                String::from_utf8_lossy(&out.stderr).chars().take(200).collect::<String>()
+            ))
+        }
+    };
+    if let Some(e) = v["error"].as_str() {
+        return viol("py-undecodable", e.to_string());
+    }
+    if let Some(p) = v["problems"].as_array().and_then(|a| a.first()) {
+        return viol("py-malformed", format!("{} ({} problems)", p, v["problems"].as_array().map(|a| a.len()).unwrap_or(0)));
+    }
+    // chromosome table and records against the model
+    let mut table: Vec<(u64, String, u64)> = v["chroms"]
+        .as_array()
+        .map(|a| {
+            a.iter()
+                .map(|c| (c[1].as_u64().unwrap_or(u64::MAX), c[0].as_str().unwrap_or("").to_string(), c[2].as_u64().unwrap_or(0)))
+                .collect()
+        })
+        .unwrap_or_default();
+    table.sort();
+    let got_table: Vec<(String, u32)> = table.iter().map(|(_, n, l)| (n.clone(), *l as u32)).collect();
+    if got_table != expected_chroms(case) {
+        return viol("py-chrom-table", format!("python decoder reads chromosome table {:?}", got_table));
+    }
+    for c in &case.chroms {
+        let id = match table.iter().find(|(_, n, _)| *n == c.name) {
+            Some((id, _, _)) => *id,
+            None => continue,
+        };
+        let recs = v["records"][id.to_string()].as_array().cloned().unwrap_or_default();
+        if recs.len() != c.items.len() {
+            return viol(
+                "py-decoded-content",
+                format!("chromosome {}: python decoder reads {} records, input had {}", c.name, recs.len(), c.items.len()),
+            );
+        }
+        for (k, (r, it)) in recs.iter().zip(&c.items).enumerate() {
+            let same = r[0].as_u64() == Some(it.s as u64)
+                && r[1].as_u64() == Some(it.e as u64)
+                && match case.kind {
+                    Kind::Wig => r[2].as_u64() == Some(it.vb as u64),
+                    Kind::Bed => r[2].as_str() == Some(it.rest.as_str()),
+                };
+            if !same {
+                return viol(
+                    "py-decoded-content",
+                    format!("chromosome {} record {}: python decoder reads {}, input {:?}", c.name, k, r, it),
+                );
+            }
+        }
+    }
+    // cross-check with the Rust decoder: summary bits and zoom records must be read identically
+    let dec = match decode::decode(image) {
+        Ok(d) => d,
+        Err(e) => return Verdict::Skip(format!("HARNESS: decoders disagree (rust fails: {})", e)),
+    };
+    if let Some(s) = dec.summary {
+        let want = vec![
+            serde_json::json!(s.0),
+            serde_json::json!(format!("{:016x}", s.1.to_bits())),
+            serde_json::json!(format!("{:016x}", s.2.to_bits())),
+            serde_json::json!(format!("{:016x}", s.3.to_bits())),
+            serde_json::json!(format!("{:016x}", s.4.to_bits())),
+        ];
+        if v["summary"].as_array() != Some(&want) {
+            return Verdict::Skip(format!("HARNESS: decoders disagree on the summary: {} vs {:?}", v["summary"], want));
+        }
+    }
+    let zs = v["zooms"].as_array().cloned().unwrap_or_default();
+    if zs.len() != dec.zooms.len() {
+        return Verdict::Skip("HARNESS: decoders disagree on the number of zoom levels".into());
+    }
+    for (pz, rz) in zs.iter().zip(&dec.zooms) {
+        let precs = pz[1].as_array().cloned().unwrap_or_default();
+        let rrecs: Vec<&decode::DZoomRec> = rz.blocks.iter().flatten().collect();
+        if pz[0].as_u64() != Some(rz.reduction as u64) || precs.len() != rrecs.len() {
+            return Verdict::Skip(format!("HARNESS: decoders disagree on zoom level {}", rz.reduction));
+        }
+        for (p, r) in precs.iter().zip(&rrecs) {
+            let w = [
+                r.chrom as u64,
+                r.start as u64,
+                r.end as u64,
+                r.valid as u64,
+                r.min.to_bits() as u64,
+                r.max.to_bits() as u64,
+                r.sum.to_bits() as u64,
+                r.sumsq.to_bits() as u64,
+            ];
+            let g: Vec<u64> = p.as_array().map(|a| a.iter().map(|x| x.as_u64().unwrap_or(u64::MAX)).collect()).unwrap_or_default();
+            if g != w {
+                return Verdict::Skip(format!("HARNESS: decoders disagree on a zoom record of level {}", rz.reduction));
+            }
+        }
+    }
+    Verdict::Pass
+}
